@@ -186,7 +186,7 @@ func (h *Handler) HandleMessage(msg stanza.Message, t xmlstream.TokenReadEncoder
 		}
 		switch start.Name.Local {
 		case "received":
-			_, id := attr.Get(start.Attr, "id")
+			_, id := attr.Own(start.Attr, "id")
 			h.m.Lock()
 			c, ok := h.sent[id]
 			if ok {
